@@ -22,7 +22,7 @@ BIAS = dict(n_test_faults=[0, 0, 1, 1, 2], n_layer_faults=[0, 0, 0, 1, 2], p_imp
             p_buffer=0.2, p_j=0.4, p_repeat=0.15, p_shuffle=0.1, v=[0, 1, 2], p_occ=0.2,
             n_writes=[0, 0, 1, 3],
             write_streams=['stdout', 'stderr', 'print', 'realstderr'],
-            profile=dict(p_deco_xfail=0.12))
+            profile=dict(p_doctest=0.2, p_deco_xfail=0.12))
 HOWS = ['exit0', 'exit3', 'kill', 'segv']
 
 
